@@ -377,6 +377,12 @@ where
 
     /// This converts a unicode point to utf-8 byte, all in *relative* offsets to this textselection
     fn utf8byte(&self, abscursor: usize) -> Result<usize, StamError> {
+        if abscursor > self.textlen() {
+            return Err(StamError::CursorOutOfBounds(
+                Cursor::BeginAligned(abscursor),
+                "utf8byte(): cursor is beyond the text selection",
+            ));
+        }
         //Convert from and to absolute coordinates so we don't have to reimplemented all the logic
         //and can just call this same method on [`TextResource`](crate::TextResource), which has the proper indices for this
         let beginbyte = self
@@ -569,6 +575,12 @@ where
 
     /// This converts a unicode point to utf-8 byte, all in *relative* offsets to this textselection
     fn utf8byte(&self, abscursor: usize) -> Result<usize, StamError> {
+        if abscursor > self.textlen() {
+            return Err(StamError::CursorOutOfBounds(
+                Cursor::BeginAligned(abscursor),
+                "utf8byte(): cursor is beyond the text selection",
+            ));
+        }
         //Convert from and to absolute coordinates so we don't have to reimplemented all the logic
         //and can just call this same method on TextResource, which has the proper indices for this
         let beginbyte = self
